@@ -42,6 +42,10 @@ func main() {
 		fmt.Sscan(os.Args[2], &seed)
 		fmt.Sscan(os.Args[3], &rounds)
 		os.Exit(c06Worker(seed, rounds))
+	case "c16worker":
+		var seed uint64
+		fmt.Sscan(os.Args[2], &seed)
+		os.Exit(c16Worker(seed, os.Args[3]))
 	case "c18worker":
 		n := 130
 		fmt.Sscan(os.Args[2], &n)
